@@ -10,7 +10,7 @@
    that it will receive, in order, is the member list of k.  It is preserved by every delivery
    of the FIRST queued publication, and by every step that starts from an empty bus. *)
 From Coq Require Import List NArith ZArith Bool Lia Permutation.
-From Verif Require Import model.Hub corr.Hub_preds proofs.Hub_basics proofs.Hub_wf proofs.Hub_pending proofs.Hub_route proofs.Hub_refuted.
+From Verif Require Import model.Hub corr.Hub_preds proofs.Hub_basics proofs.Hub_wf proofs.Hub_easy proofs.Hub_pending proofs.Hub_route proofs.Hub_refuted.
 Import ListNotations.
 Open Scope N_scope.
 
@@ -617,7 +617,7 @@ Lemma quiet_do_media h c sid s to mk stream media : get_sess h sid = Some s ->
 Proof.
   intros Hs. unfold do_media. destruct to as [i| | |]; try apply quiet_ret.
   destruct (N.eqb mk 0).
-  { destruct (negb (offer_allowed (s_perms s) stream media)); [apply quiet_err|].
+  { destruct (negb (offer_allowed (s_perms s) stream _)); [apply quiet_err|].
     destruct (aget (s_pubs s) stream) as [tok|]; [|apply quiet_start_create].
     eapply quiet_pre; [|now apply quiet_send_irr]. apply (same_put h sid s); [exact Hs|reflexivity|now apply pend_ok_eq]. }
   destruct (N.eqb mk 1).
@@ -1473,11 +1473,28 @@ Qed.
 Lemma keys_put_in h x s s' : get_sess h x = Some s -> map fst (h_sessions (put_sess h x s')) = map fst (h_sessions h).
 Proof. intros H. unfold put_sess. cbn [h_sessions set_sessions]. apply keys_aset_in. unfold get_sess in H. congruence. Qed.
 
+(* the view of an exempt session may be anything *)
+Lemma Jv_gview_exempt xr xs h g g' bus sid : Jv xr xs h g bus -> xs sid -> (forall x, x <> sid -> g_view g' x = g_view g x) ->
+  Jv xr xs h g' bus.
+Proof.
+  intros V Hx Hg y s Hs Hv Hy. assert (y <> sid) by (intros ->; contradiction).
+  eapply view_ok_ext; [reflexivity|now apply Hg|]. now apply V.
+Qed.
+Lemma Jh_gview h g g' sid : Jh h g -> (forall c, g_bind g' c = g_bind g c) -> (forall x, x <> sid -> g_view g' x = g_view g x) ->
+  sid <= h_nextsid h -> Jh h g'.
+Proof.
+  intros H Gb Gv Hle. constructor; try apply H.
+  - intros x Hx. rewrite Gv; [now apply H|]. intros ->. lia.
+  - intros c x Hx. rewrite Gb in Hx. now apply (j_fresh_bind _ _ H c).
+  - intros x s c Hs Hc. rewrite Gb. now apply (j_bind _ _ H x s c).
+Qed.
+
 Lemma Jg_do_hello xr xs h g c cn hl :
+  WFg xr none1 h -> aget (h_conns h) c = Some (mkconn (c_addr cn) None (match hl with HResume _ => c_expect cn | _ => false end)) ->
   (forall x s, get_sess h x = Some s -> s_conn s <> Some c) -> Jg xr xs h g ->
   Jg xr xs (fst (do_hello h c cn hl)) (gouts g (snd (do_hello h c cn hl))).
 Proof.
-  intros Hno HJ. unfold do_hello.
+  intros W Hcc Hno HJ. unfold do_hello.
   assert (Jexp : forall h0 e, same h h0 -> (forall x, get_sess h0 x = get_sess h x) ->
             Jg xr xs (set_conns h0 (aset (h_conns h0) c (mkconn (c_addr cn) None true))) (gouts g [ToConn c (SError e)])).
   { intros h0 e E Eg. apply Jg_irr; [reflexivity|]. apply Jg_set_conn; [eapply Jg_same; eauto|].
@@ -1517,25 +1534,59 @@ Proof.
         destruct (N.eqb_spec c0 c'); [reflexivity|now apply aget_aset_other].
       - unfold send_conn. rewrite Hc'. repeat split; try reflexivity. intros c0. cbn [fst].
         destruct (N.eqb_spec c0 c') as [->|]; [exact Hc'|reflexivity]. }
-    destruct P as [h1 outs1]. cbn [fst snd] in HP. destruct HP as (I1 & Ps & Pr & Pb & Pc & Pn & Pcn). cbn [fst snd].
+    pose proof (wf_resume_attached xr h c cn n s W Hcc Hs Hv) as W5. cbv zeta in W5. fold P in W5.
+    destruct P as [h1 outs1]. cbn [fst snd] in HP, W5. destruct HP as (I1 & Ps & Pr & Pb & Pc & Pn & Pcn). cbn [fst snd].
     assert (Hs1 : get_sess h1 n = Some s) by (unfold get_sess; now rewrite Ps).
     destruct (gouts_irr outs1 g I1) as [Gb1 Gv1].
     set (g2 := gout (gouts g outs1) (ToConn c (SHello n (sess_userid h n s)))).
     assert (Hb2 : g_bind g2 c = Some n) by (unfold g2; cbn; now rewrite N.eqb_refl).
-    destruct (gouts_flush (s_pending s) g2 c n Hb2 (fun m Hm => j_nohello _ _ (proj1 HJ) n s m Hs Hm)) as [Gb3 Gv3].
-    rewrite gouts_app, gouts_cons. fold g2.
-    eapply (Jg_resume xr xs h g _ _ c n s (c_addr cn) HJ Hs Hv Hno).
-    + intros x. unfold get_sess at 1. cbn [h_sessions set_conns set_clients set_expired put_sess set_sessions].
+    match goal with |- context [if _ then _ else (?hh, ?oo)] => set (h5 := hh) in *; set (outs5 := oo) end.
+    (* the state after the attach, with the view the session has once the WHOLE queue is replayed *)
+    set (gfull := mkg (fun c0 => if N.eqb c0 c then Some n else g_bind g c0)
+                      (fun x => if N.eqb x n then replay (s_pending s) (g_view g n) else g_view g x)).
+    assert (Jfull : Jg xr xs h5 gfull).
+    { eapply (Jg_resume xr xs h g _ _ c n s (c_addr cn) HJ Hs Hv Hno).
+    + intros x. unfold get_sess at 1. cbn [h5 h_sessions set_conns set_clients set_expired put_sess set_sessions].
       rewrite Ps. apply aget_aset.
-    + cbn [h_sessions set_conns set_clients set_expired]. rewrite (keys_put_in h1 n s _ Hs1). now rewrite Ps.
+    + cbn [h5 h_sessions set_conns set_clients set_expired]. rewrite (keys_put_in h1 n s _ Hs1). now rewrite Ps.
     + exact Pr.
     + exact Pb.
     + exact Pc.
     + exact Pn.
-    + intros c0. cbn [h_conns set_conns set_clients set_expired put_sess set_sessions]. rewrite aget_aset.
+    + intros c0. cbn [h5 h_conns set_conns set_clients set_expired put_sess set_sessions]. rewrite aget_aset.
       destruct (N.eqb c0 c); [reflexivity|apply Pcn].
-    + intros c0. rewrite Gb3. unfold g2. cbn [gout g_bind]. destruct (N.eqb c0 c); [reflexivity|apply Gb1].
-    + intros x. rewrite Gv3. unfold g2. cbn [gout g_view]. rewrite !Gv1. reflexivity.
+    + reflexivity.
+    + reflexivity. }
+    (* what the resume really writes: the queue up to the first closing message *)
+    destruct (gouts_flush (upto_closing (s_room s) (s_pending s)) g2 c n Hb2
+                (fun m Hm => j_nohello _ _ (proj1 HJ) n s m Hs (upto_closing_incl _ _ m Hm))) as [Gb3 Gv3].
+    assert (Gb5 : forall c0, g_bind (gouts g outs5) c0 = g_bind gfull c0).
+    { intros c0. unfold outs5. rewrite gouts_app, gouts_cons. fold g2. rewrite Gb3. unfold g2. cbn [gout g_bind gfull].
+      destruct (N.eqb c0 c); [reflexivity|apply Gb1]. }
+    assert (Gv5 : forall x, g_view (gouts g outs5) x =
+                            if N.eqb x n then replay (upto_closing (s_room s) (s_pending s)) (g_view g n) else g_view g x).
+    { intros x. unfold outs5. rewrite gouts_app, gouts_cons. fold g2. rewrite Gv3. unfold g2. cbn [gout g_view]. rewrite !Gv1. reflexivity. }
+    destruct (queue_closes s) eqn:Hq.
+    2:{ (* nothing closing queued: the whole queue was written *)
+      apply (Jg_geq _ _ _ gfull); [|exact Jfull]. split; [exact Gb5|].
+      intros x. rewrite Gv5, (upto_closing_none s Hq). reflexivity. }
+    (* a queued bye / disinvite closes the connection and the session: the session's view is stale (the rest
+       of the queue was not written), but a closed session has no view obligations *)
+    assert (Hs5 : get_sess h5 n = Some (sess_pending (sess_conn s (Some c)) [])).
+    { unfold get_sess. cbn [h5 h_sessions set_conns set_clients set_expired put_sess set_sessions]. apply aget_aset_same. }
+    assert (J5 : Jg xr (or_sid xs n) h5 (gouts g outs5)).
+    { split.
+      - apply (Jh_gview h5 gfull _ n (proj1 Jfull)); [exact Gb5| |exact (j_live _ _ (proj1 Jfull) n _ Hs5)].
+        intros x Hx. rewrite Gv5. cbn [gfull g_view]. destruct (N.eqb_spec x n); [contradiction|reflexivity].
+      - apply (Jv_gview_exempt xr (or_sid xs n) h5 gfull _ (h_bus h5) n); [apply Jv_exempt; exact (proj2 Jfull)|now right|].
+        intros x Hx. rewrite Gv5. cbn [gfull g_view]. destruct (N.eqb_spec x n); [contradiction|reflexivity]. }
+    pose proof (Jg_close_conn xr (or_sid xs n) h5 (gouts g outs5) c W5 J5) as J6.
+    assert (Hg6 : get_sess (fst (close_conn h5 c)) n = None).
+    { unfold close_conn. cbn [h5 h_conns set_conns]. rewrite aget_aset_same. cbn [c_sess].
+      match goal with |- context [close_session ?hh n] => pose proof (close_session_gone hh n) as Hg; destruct (close_session hh n) as [h3 o3] end.
+      exact Hg. }
+    destruct (close_conn h5 c) as [h6 o6]. cbn [fst snd] in *. rewrite gouts_app.
+    apply (Jg_drop_exempt xr xs h6 _ n J6 Hg6).
 Qed.
 
 (* ------------------------------------------------------------------ a member is added to a room *)
@@ -1548,12 +1599,6 @@ Proof.
   - destruct (aget (h_rs1 h) sid) as [prev|]; [destruct (N.eqb prev rs)|]; repeat split; reflexivity.
 Qed.
 
-Lemma Jv_gview_exempt xr xs h g g' bus sid : Jv xr xs h g bus -> xs sid -> (forall x, x <> sid -> g_view g' x = g_view g x) ->
-  Jv xr xs h g' bus.
-Proof.
-  intros V Hx Hg y s Hs Hv Hy. assert (y <> sid) by (intros ->; contradiction).
-  eapply view_ok_ext; [reflexivity|now apply Hg|]. now apply V.
-Qed.
 
 Lemma pub_op_asj sid k tj M k0 x i t :
   pub_op sid k tj M (mkpub (SubjBackendRoom (fst k0) (snd k0)) (ASessionJoined x i) t) =
@@ -1622,14 +1667,6 @@ Qed.
 Lemma gouts_geq outs : forall g g', geq g g' -> geq (gouts g outs) (gouts g' outs).
 Proof. induction outs as [|o r IH]; intros g g' G; [exact G|]. rewrite !gouts_cons. apply IH. now apply gout_geq. Qed.
 
-Lemma Jh_gview h g g' sid : Jh h g -> (forall c, g_bind g' c = g_bind g c) -> (forall x, x <> sid -> g_view g' x = g_view g x) ->
-  sid <= h_nextsid h -> Jh h g'.
-Proof.
-  intros H Gb Gv Hle. constructor; try apply H.
-  - intros x Hx. rewrite Gv; [now apply H|]. intros ->. lia.
-  - intros c x Hx. rewrite Gb in Hx. now apply (j_fresh_bind _ _ H c).
-  - intros x s c Hs Hc. rewrite Gb. now apply (j_bind _ _ H x s c).
-Qed.
 
 Lemma target_nonvirtual h x t : get_sess h x = Some t -> is_virtual (s_kind t) = false -> target h x = x.
 Proof. intros H Hv. unfold target. rewrite H. destruct (s_kind t); try reflexivity; discriminate. Qed.
@@ -2287,7 +2324,8 @@ Proof.
   - (* hello *)
     destruct (aget (h_conns h) c) as [cn|] eqn:Hc; [|exact HJ]. destruct (c_sess cn) eqn:Hcs; [exact HJ|].
     pose proof (nobody_on h g c cn (proj1 HJ) Hc Hcs) as Hno.
-    apply Jg_do_hello; [exact Hno|]. now apply Jg_set_conn.
+    apply Jg_do_hello; [now apply wf_set_conn_nosess|hsimpl; apply aget_aset_same| |now apply Jg_set_conn].
+    exact Hno.
   - (* join *)
     apply J_with_session; auto. intros cn sid s Hc Hcs Hs Hv.
     pose proof (Jg_do_join h g c sid s rn rs rep W HJ Hs Hv (Hquiet cn sid Hc Hcs)) as J1.
